@@ -36,9 +36,10 @@ Proof. intros [H|H]; unfold blocks; rewrite H; apply andb_false_iff; left; apply
 (* ---------------------------------------------------------------- cache *)
 Section CacheProofs.
   Variable rd : N -> key -> option value.
+  Variable sp : N.
 
   Definition cache_ok (s : snap) : Prop :=
-    (forall k v, cache_lookup s k = Some v -> opt_of v = norm (rd (version s) k)) /\
+    (forall k v, cache_lookup s k = Some v -> opt_of v = norm (rd (version s) k) /\ sp <= version s) /\
     (version s = maxts -> cached s = None).
 
   Lemma opt_val_norm o : opt_of (val_of (norm o)) = norm o.
@@ -54,53 +55,88 @@ Section CacheProofs.
   Qed.
 
   Lemma cache_update_ok s kvs :
-    cache_ok s -> (forall k v, c_lookup kvs k = Some v -> opt_of v = norm (rd (version s) k)) ->
+    cache_ok s -> sp <= version s ->
+    (forall k v, c_lookup kvs k = Some v -> opt_of v = norm (rd (version s) k)) ->
     cache_ok (cache_update s kvs) /\ version (cache_update s kvs) = version s.
   Proof.
-    intros [H1 H2] Hk. unfold cache_update. destruct (version s =? maxts) eqn:E.
+    intros [H1 H2] Hsp Hk. unfold cache_update. destruct (version s =? maxts) eqn:E.
     - split; [split; assumption|reflexivity].
     - split; [|reflexivity]. split; cbn [version cached].
       + intros k v. unfold cache_lookup. cbn [cached]. rewrite c_lookup_app.
         destruct (c_lookup kvs k) as [v'|] eqn:E1.
-        * intros Hv. inversion Hv; subst. apply Hk. exact E1.
+        * intros Hv. inversion Hv; subst. split; [apply Hk; exact E1|exact Hsp].
         * intros Hv. apply H1. unfold cache_lookup. destruct (cached s); [exact Hv|discriminate].
       + intros Hm. apply N.eqb_neq in E. congruence.
   Qed.
 
   Lemma c_step_ok s o : cache_ok s ->
-    fst (c_step rd s o) = fst (u_step rd (version s) o) /\
-    cache_ok (snd (c_step rd s o)) /\ version (snd (c_step rd s o)) = snd (u_step rd (version s) o).
+    fst (c_step rd sp s o) = fst (u_step rd sp (version s) o) /\
+    cache_ok (snd (c_step rd sp s o)) /\ version (snd (c_step rd sp s o)) = snd (u_step rd sp (version s) o).
   Proof.
     intros Hok. destruct o as [k|ks|ts|k|ks got]; cbn [c_step u_step];
       try (cbn [fst snd]; split; [reflexivity|split; [exact Hok|reflexivity]]).
     - unfold c_get. destruct (cache_lookup s k) as [v|] eqn:E; cbn [fst snd].
-      + split; [f_equal; apply (proj1 Hok); exact E|]. split; [exact Hok|reflexivity].
-      + destruct (cache_update_ok s [(k, val_of (norm (rd (version s) k)))] Hok) as [H1 H2].
+      + destruct (proj1 Hok k v E) as [Hv Hsp]. assert (Hlt : (version s <? sp) = false) by (apply N.ltb_ge; exact Hsp).
+        rewrite Hlt. split; [f_equal; exact Hv|]. split; [exact Hok|reflexivity].
+      + destruct (version s <? sp) eqn:Hlt; cbn [fst snd]; [split; [reflexivity|split; [exact Hok|reflexivity]]|].
+        apply N.ltb_ge in Hlt.
+        destruct (cache_update_ok s [(k, val_of (norm (rd (version s) k)))] Hok Hlt) as [H1 H2].
         { intros k' v. cbn [c_lookup]. destruct (keqb k k') eqn:Ek; [|discriminate].
           apply keqb_eq in Ek. subst k'. intros Hv. inversion Hv. apply opt_val_norm. }
         split; [reflexivity|]. split; assumption.
-    - unfold c_batch. cbn [fst snd]. split.
-      + f_equal. apply map_ext_in. intros k _. destruct (cache_lookup s k) as [v|] eqn:E; [|reflexivity].
-        f_equal. apply (proj1 Hok). exact E.
-      + set (miss := filter _ ks).
-        destruct miss as [|m miss'] eqn:Em; [split; [exact Hok|reflexivity]|]. rewrite <- Em.
-        apply cache_update_ok; [exact Hok|].
-        intros k v. generalize miss. intros l. induction l as [|a l IH]; cbn [map c_lookup]; [discriminate|].
-        destruct (keqb a k) eqn:Ek; [|exact IH].
-        apply keqb_eq in Ek. subst a. intros Hv. inversion Hv. apply opt_val_norm.
+    - unfold c_batch. set (miss := filter _ ks).
+      assert (Hans : map (fun k => (k, match cache_lookup s k with Some v => opt_of v | None => norm (rd (version s) k) end)) ks
+                     = map (fun k => (k, norm (rd (version s) k))) ks).
+      { apply map_ext_in. intros k _. destruct (cache_lookup s k) as [v|] eqn:E; [|reflexivity].
+        f_equal. apply (proj1 Hok k v E). }
+      rewrite Hans.
+      destruct miss as [|m miss'] eqn:Em.
+      + (* everything cached: served before the visibility check *)
+        cbn [fst snd]. split; [|split; [exact Hok|reflexivity]].
+        destruct ks as [|k0 ks']; [reflexivity|].
+        assert (Hc : exists v, cache_lookup s k0 = Some v).
+        { destruct (cache_lookup s k0) as [v|] eqn:E0; [eauto|]. exfalso.
+          assert (Hin : In k0 miss) by (unfold miss; apply filter_In; split; [left; reflexivity|rewrite E0; reflexivity]).
+          rewrite Em in Hin. destruct Hin. }
+        destruct Hc as [v Hv]. destruct (proj1 Hok k0 v Hv) as [_ Hsp].
+        assert (Hlt : (version s <? sp) = false) by (apply N.ltb_ge; exact Hsp). rewrite Hlt. reflexivity.
+      + assert (Hks : ks <> []).
+        { intros ->. unfold miss in Em. cbn in Em. discriminate. }
+        destruct (version s <? sp) eqn:Hlt; cbn [fst snd].
+        * split; [destruct ks; [congruence|reflexivity]|]. split; [exact Hok|reflexivity].
+        * split; [destruct ks; [congruence|reflexivity]|]. rewrite <- Em. apply N.ltb_ge in Hlt.
+          apply cache_update_ok; [exact Hok|exact Hlt|].
+          intros k v. generalize miss. intros l. induction l as [|a l IH]; cbn [map c_lookup]; [discriminate|].
+          destruct (keqb a k) eqn:Ek; [|exact IH].
+          apply keqb_eq in Ek. subst a. intros Hv. inversion Hv. apply opt_val_norm.
     - cbn [fst snd]. split; [reflexivity|]. split; [|reflexivity].
       split; cbn [version cached cache_lookup]; [discriminate|reflexivity].
   Qed.
 
   Lemma cache_transparent : forall ops s, cache_ok s ->
-    c_run rd s ops = u_run rd (version s) ops /\ cache_ok (c_final rd s ops).
+    c_run rd sp s ops = u_run rd sp (version s) ops /\ cache_ok (c_final rd sp s ops).
   Proof.
     induction ops as [|o ops IH]; intros s Hok; cbn [c_run u_run c_final]; [split; [reflexivity|exact Hok]|].
     destruct (c_step_ok s o Hok) as (H1 & H2 & H3).
-    destruct (c_step rd s o) as [x s'] eqn:E1. destruct (u_step rd (version s) o) as [y v'] eqn:E2.
+    destruct (c_step rd sp s o) as [x s'] eqn:E1. destruct (u_step rd sp (version s) o) as [y v'] eqn:E2.
     cbn [fst snd] in *. subst y v'. destruct (IH s' H2) as [H4 H5]. split; [f_equal; exact H4|exact H5].
   Qed.
 
   Lemma fresh_ok ts : cache_ok (mkSnap ts None).
   Proof. split; cbn [cache_lookup cached version]; [discriminate|reflexivity]. Qed.
+
+  (* a read refused by the safe point stays refused on re-read, Get and BatchGet (non-empty key list),
+     whatever was read before on that snapshot object *)
+  Lemma refused_stays : forall s, cache_ok s -> version s < sp ->
+    (forall k, c_step rd sp s (CGet k) = (RRefused, s)) /\
+    (forall ks, ks <> [] -> c_step rd sp s (CBatchGet ks) = (RRefused, s)).
+  Proof.
+    intros s Hok Hlt. assert (Hnone : forall k, cache_lookup s k = None).
+    { intros k. destruct (cache_lookup s k) as [v|] eqn:E; [|reflexivity]. destruct (proj1 Hok k v E) as [_ H]. lia. }
+    assert (Hb : (version s <? sp) = true) by (apply N.ltb_lt; exact Hlt).
+    split.
+    - intros k. cbn [c_step]. unfold c_get. rewrite Hnone, Hb. reflexivity.
+    - intros ks Hks. cbn [c_step]. unfold c_batch.
+      destruct ks as [|k0 ks']; [congruence|]. cbn [filter]. rewrite Hnone. rewrite Hb. reflexivity.
+  Qed.
 End CacheProofs.
